@@ -973,6 +973,27 @@ class KtensorModes(Op):
         return f, K
 
 
+class Nvecs(Op):
+    """leading mode-n vectors: the mode argument"""
+    name = "nvecs"
+    covers = (("tensor", "nvecs"), ("sptensor", "nvecs"), ("ttensor", "nvecs"))
+
+    def gen(self, rng, tier):
+        out = []
+        for s in ([2, 3, 4], [3, 3], [2, 4, 2], [3, 2]):
+            N = len(s)
+            for rep in ("dense", "sparse", "ttensor"):
+                for m in range(N):
+                    out.append({"rep": rep, "shape": s, "fn": "nvecs", "R": 1, "arg": m, "bad": None})
+                for m, what in ((N, "mode=N"), (N + 2, "mode>N"), (-1, "mode<0"), (-N, "mode=-N")):
+                    out.append({"rep": rep, "shape": s, "fn": "nvecs", "R": 1, "arg": m, "bad": what})
+        return out
+
+    def run(self, c, r):
+        X = mk_holder(r, c["rep"], c["shape"])
+        return (lambda: X.nvecs(c["arg"], 1)), X
+
+
 class Mask(Op):
     name = "mask"
     covers = (("tensor", "mask"), ("sptensor", "mask"), ("ktensor", "mask"))
@@ -1289,7 +1310,7 @@ class ImportData(Op):
 
 
 OPS = [Dimscheck(), Ttv(), Ttm(), Mttkrp(), Innerprod(), Elementwise(), TenmatMul(), Ttt(), Contract(), Collapse(), Scale(),
-       Permute(), Reshape(), ToMat(), Constructors(), KtensorModes(), Mask(), Extract(), Khatrirao(), Algorithms(), ImportData()]
+       Permute(), Reshape(), ToMat(), Constructors(), KtensorModes(), Nvecs(), Mask(), Extract(), Khatrirao(), Algorithms(), ImportData()]
 OPS_BY_NAME = {o.name: o for o in OPS}
 
 # ---------------------------------------------------------------------------------------------
@@ -1299,11 +1320,9 @@ OPS_BY_NAME = {o.name: o for o in OPS}
 #: inconsistent with the receiver), or whose stated behaviour on odd input is to answer, with the reason
 NO_PRECONDITION = {
     "copy", "double", "full", "to_tensor", "to_sptensor", "find", "norm", "nnz", "ndims", "shape", "order", "isequal",
-    "exp", "logical_not", "squeeze", "allsubs", "ones", "spmatrix", "squash", "elemfun", "tovec", "viz", "issymmetric",
-    "ncomponents", "ctranspose", "to_sptensor", "__neg__", "__pos__", "__repr__", "__str__", "__deepcopy__", "fixsigns",
-    "score", "symmetrize", "reconstruct", "from_function", "from_array", "mttkrps", "ttsv", "subdims", "tenfun_unary",
-    "__getitem__", "__setitem__", "__pow__", "__rtruediv__", "__rmul__", "__radd__", "__rsub__", "__truediv__", "update",
-    "parts",
+    "exp", "logical_not", "squeeze", "allsubs", "ones", "elemfun", "tovec", "ncomponents", "ctranspose", "parts",
+    "__neg__", "__pos__", "__repr__", "__str__", "__deepcopy__", "__pow__", "__rtruediv__", "__rmul__", "__mul__",
+    "__truediv__", "__radd__", "__rsub__",
 }
 
 
@@ -1318,6 +1337,8 @@ def public_surface():
                                             "__getattribute__", "__setattr__", "__delattr__", "__format__", "__reduce__",
                                             "__reduce_ex__", "__sizeof__", "__getstate__", "__annotations__"):
                 continue
+            if inspect.ismemberdescriptor(m) or inspect.isdatadescriptor(m) and not isinstance(m, property):
+                continue  # storage slots, not operations
             if n in vars(cls) or any(n in vars(b) for b in cls.__mro__[:-1]):
                 out.append((cls.__name__, n))
     out += [("pyttb_utils", "tt_dimscheck"), ("khatrirao", "khatrirao"), ("import_data", "import_data"),
